@@ -53,11 +53,11 @@ theorem step_ignore : (step c s i).1.ignore =
     if resetNow c s i then false else if i.retryReceived then false
     else if badEv s then true else s.ignore := rfl
 theorem step_fsm : (step c s i).1.fsm = fsmNext c s i := rfl
-theorem step_gen : (step c s i).1.gen = genNext s i := rfl
+theorem step_gen : (step c s i).1.gen = if c.abort && resetCond s i then .idle else genNext s i := rfl
 theorem step_gCmd : (step c s i).1.gCmd =
-    if s.gen == .idle && generate s then genCmd c s else s.gCmd := rfl
+    if c.abort && resetCond s i then 0 else if s.gen == .idle && generate s then genCmd c s else s.gCmd := rfl
 theorem step_gSub : (step c s i).1.gSub =
-    if s.gen == .idle && generate s then genSub s % 16 else s.gSub := rfl
+    if c.abort && resetCond s i then 0 else if s.gen == .idle && generate s then genSub s % 16 else s.gSub := rfl
 end proj
 
 /-- What an observer of the ports has seen so far. -/
